@@ -6,6 +6,7 @@ import StarsimModel.Model.Footprint
 import StarsimModel.Model.Rng
 import StarsimModel.Generated.SeedFacts
 import StarsimModel.Generated.GlobalReads
+import StarsimModel.Lemmas.Search
 
 namespace StarsimModel.C02
 open StarsimModel.Footprint
@@ -115,6 +116,83 @@ theorem C02_start_step_jumps_own :
     attribute and no mutable default argument exists in the simulation code (regenerated table).  A shared default
     `Dist` would be one object — one stream — in every component built with the default. -/
 theorem C02_no_shared_defaults : Gen.sharedMutables = [] := by decide
+
+/-! ### The search that names the distributions (`Dists.init` → `sc.search`, Model/Search.lean) -/
+
+open StarsimModel.Search in
+/-- **Adding objects never renames an old distribution.** Let `g1` be the object graph of a simulation, `g2` the graph
+    without some added objects (a new module and everything only it refers to), attached anywhere — at any position of any
+    container.  If the search of `g1` finishes and, whenever it follows a reference from an added object back to an old
+    iterable object, that object has been processed before (`safeRun`, evaluated on every real graph by the
+    correspondence), then the search of `g2` finishes and finds exactly the old distributions the larger search found:
+    with the same traces — hence the same names and, by `C02_seed_from_path`, the same seeds — and in the same order. -/
+theorem C02_search_frame {g1 g2 : Graph} {old : Nat → Bool} (hE : Extends g1 g2 old) (sk : Skips) (root : Nat)
+    (hr : old root = true) (n1 : Nat) (hsafe : safeRun g1 sk old n1 (start g1 root) = true)
+    (hfin : (steps g1 sk n1 (start g1 root)).final = true) :
+    ∃ n2, n2 ≤ n1 ∧ (steps g2 sk n2 (start g2 root)).final = true ∧
+      (steps g2 sk n2 (start g2 root)).out = (steps g1 sk n1 (start g1 root)).out.filter (fun o => old o.2) := by
+  obtain ⟨n2, hle, hf, hR⟩ := search_frame hE sk n1 _ _ (start_rel hE root hr) hsafe hfin
+  exact ⟨n2, hle, hf, hR.out⟩
+
+open StarsimModel.Search in
+/-- The same, from a condition on the graph alone: the only old iterable objects an added object refers to (under a key
+    and id the search does not skip) are the root — `module.sim`, `dist.sim`. -/
+theorem C02_search_frame_static {g1 g2 : Graph} {old : Nat → Bool} (hE : Extends g1 g2 old) (sk : Skips) (root : Nat)
+    (hr : old root = true) (hB : backRefsIn g1 sk old [root]) (n1 : Nat)
+    (hfin : (steps g1 sk n1 (start g1 root)).final = true) :
+    ∃ n2, n2 ≤ n1 ∧ (steps g2 sk n2 (start g2 root)).final = true ∧
+      (steps g2 sk n2 (start g2 root)).out = (steps g1 sk n1 (start g1 root)).out.filter (fun o => old o.2) := by
+  have hsafe := safeRun_of_backRefs hB n1 (start g1 root) (by intro m hm; simpa [start] using hm)
+    (backInv_start g1 sk old root hr)
+  exact C02_search_frame hE sk root hr n1 hsafe hfin
+
+namespace SearchEx
+open StarsimModel.Search
+
+/-- root 0 = sim {diseases: 1, analyzers: 2};  1 = {sir: 3};  3 = SIR {dur: 4 (a Dist)};  2 = {} -/
+def small : Graph := fun x =>
+  match x with
+  | 0 => ⟨true, false, [("diseases", 1), ("analyzers", 2)]⟩
+  | 1 => ⟨true, false, [("sir", 3)]⟩
+  | 2 => ⟨true, false, []⟩
+  | 3 => ⟨true, false, [("dur", 4), ("sim", 0)]⟩
+  | 4 => ⟨true, true, [("sim", 0), ("module", 3)]⟩
+  | _ => ⟨false, false, []⟩
+
+/-- the same with an analyzer 5 = Probe {d: 6 (a Dist), sim: 0, watched: 3 (a reference to the disease it reads)} -/
+def withProbe (kids0 : List (String × Nat)) : Graph := fun x =>
+  match x with
+  | 0 => ⟨true, false, kids0⟩
+  | 2 => ⟨true, false, [("probe", 5)]⟩
+  | 5 => ⟨true, false, [("d", 6), ("sim", 0), ("watched", 3)]⟩
+  | 6 => ⟨true, true, [("sim", 0), ("module", 5)]⟩
+  | x => small x
+
+def sk : Skips := ⟨["module"], []⟩
+def isOld (x : Nat) : Bool := x != 5 && x != 6
+
+/-- analyzers searched AFTER diseases (today's order): the disease's distribution keeps its name, the probe's is new -/
+example : (steps (withProbe [("diseases", 1), ("analyzers", 2)]) sk 20 (start (withProbe [("diseases", 1), ("analyzers", 2)]) 0)).out
+    = [(["diseases", "sir", "dur"], 4), (["analyzers", "probe", "d"], 6)] := by decide
+
+example : safeRun (withProbe [("diseases", 1), ("analyzers", 2)]) sk isOld 20 (start (withProbe [("diseases", 1), ("analyzers", 2)]) 0) = true := by
+  decide
+
+example : (steps small sk 20 (start small 0)).out = [(["diseases", "sir", "dur"], 4)] := by decide
+
+end SearchEx
+
+open StarsimModel.Search SearchEx in
+/-- **The safety hypothesis cannot be dropped.** If the container of the added analyzer were searched BEFORE the diseases,
+    the reference it holds to the disease would be followed first and the disease's distribution would be found — and
+    named, and seeded — under the analyzer's path: `safeRun` is false and the old distribution is renamed. -/
+theorem C02_search_rename_counterexample :
+    let g1 := withProbe [("analyzers", 2), ("diseases", 1)]
+    safeRun g1 sk isOld 20 (start g1 0) = false ∧
+    (steps g1 sk 20 (start g1 0)).final = true ∧
+    (steps g1 sk 20 (start g1 0)).out.filter (fun o => isOld o.2) = [(["analyzers", "probe", "watched", "dur"], 4)] ∧
+    (steps small sk 20 (start small 0)).out = [(["diseases", "sir", "dur"], 4)] := by
+  decide
 
 /-! ### Non-vacuity -/
 
